@@ -7,6 +7,9 @@ lib/Lib.vos lib/Lib.vok lib/Lib.required_vos: lib/Lib.v
 lib/RLib.vo lib/RLib.glob lib/RLib.v.beautified lib/RLib.required_vo: lib/RLib.v lib/Lib.vo
 lib/RLib.vio: lib/RLib.v lib/Lib.vio
 lib/RLib.vos lib/RLib.vok lib/RLib.required_vos: lib/RLib.v lib/Lib.vos
+lib/Trig.vo lib/Trig.glob lib/Trig.v.beautified lib/Trig.required_vo: lib/Trig.v lib/Lib.vo lib/RLib.vo
+lib/Trig.vio: lib/Trig.v lib/Lib.vio lib/RLib.vio
+lib/Trig.vos lib/Trig.vok lib/Trig.required_vos: lib/Trig.v lib/Lib.vos lib/RLib.vos
 gen/Compute.vo gen/Compute.glob gen/Compute.v.beautified gen/Compute.required_vo: gen/Compute.v lib/Lib.vo
 gen/Compute.vio: gen/Compute.v lib/Lib.vio
 gen/Compute.vos gen/Compute.vok gen/Compute.required_vos: gen/Compute.v lib/Lib.vos
@@ -25,6 +28,21 @@ proofs/C12_eq.vos proofs/C12_eq.vok proofs/C12_eq.required_vos: proofs/C12_eq.v 
 proofs/C12_ne.vo proofs/C12_ne.glob proofs/C12_ne.v.beautified proofs/C12_ne.required_vo: proofs/C12_ne.v lib/Lib.vo lib/BoolLaws.vo gen/Compute.vo gen/Tables.vo gen/Unfold.vo proofs/C12_eq.vo
 proofs/C12_ne.vio: proofs/C12_ne.v lib/Lib.vio lib/BoolLaws.vio gen/Compute.vio gen/Tables.vio gen/Unfold.vio proofs/C12_eq.vio
 proofs/C12_ne.vos proofs/C12_ne.vok proofs/C12_ne.required_vos: proofs/C12_ne.v lib/Lib.vos lib/BoolLaws.vos gen/Compute.vos gen/Tables.vos gen/Unfold.vos proofs/C12_eq.vos
+proofs/C13_causal.vo proofs/C13_causal.glob proofs/C13_causal.v.beautified proofs/C13_causal.required_vo: proofs/C13_causal.v lib/Lib.vo lib/RLib.vo lib/Trig.vo gen/Compute.vo gen/Tables.vo gen/Unfold.vo proofs/C13_range.vo
+proofs/C13_causal.vio: proofs/C13_causal.v lib/Lib.vio lib/RLib.vio lib/Trig.vio gen/Compute.vio gen/Tables.vio gen/Unfold.vio proofs/C13_range.vio
+proofs/C13_causal.vos proofs/C13_causal.vok proofs/C13_causal.required_vos: proofs/C13_causal.v lib/Lib.vos lib/RLib.vos lib/Trig.vos gen/Compute.vos gen/Tables.vos gen/Unfold.vos proofs/C13_range.vos
+proofs/C13_par.vo proofs/C13_par.glob proofs/C13_par.v.beautified proofs/C13_par.required_vo: proofs/C13_par.v lib/Lib.vo lib/RLib.vo lib/Trig.vo gen/Compute.vo gen/Tables.vo gen/Unfold.vo proofs/C13_range.vo
+proofs/C13_par.vio: proofs/C13_par.v lib/Lib.vio lib/RLib.vio lib/Trig.vio gen/Compute.vio gen/Tables.vio gen/Unfold.vio proofs/C13_range.vio
+proofs/C13_par.vos proofs/C13_par.vok proofs/C13_par.required_vos: proofs/C13_par.v lib/Lib.vos lib/RLib.vos lib/Trig.vos gen/Compute.vos gen/Tables.vos gen/Unfold.vos proofs/C13_range.vos
+proofs/C13_range.vo proofs/C13_range.glob proofs/C13_range.v.beautified proofs/C13_range.required_vo: proofs/C13_range.v lib/Lib.vo lib/RLib.vo lib/Trig.vo gen/Compute.vo gen/Tables.vo gen/Unfold.vo
+proofs/C13_range.vio: proofs/C13_range.v lib/Lib.vio lib/RLib.vio lib/Trig.vio gen/Compute.vio gen/Tables.vio gen/Unfold.vio
+proofs/C13_range.vos proofs/C13_range.vok proofs/C13_range.required_vos: proofs/C13_range.v lib/Lib.vos lib/RLib.vos lib/Trig.vos gen/Compute.vos gen/Tables.vos gen/Unfold.vos
+proofs/C13_sign.vo proofs/C13_sign.glob proofs/C13_sign.v.beautified proofs/C13_sign.required_vo: proofs/C13_sign.v lib/Lib.vo lib/RLib.vo lib/Trig.vo gen/Compute.vo gen/Tables.vo gen/Unfold.vo proofs/C13_range.vo
+proofs/C13_sign.vio: proofs/C13_sign.v lib/Lib.vio lib/RLib.vio lib/Trig.vio gen/Compute.vio gen/Tables.vio gen/Unfold.vio proofs/C13_range.vio
+proofs/C13_sign.vos proofs/C13_sign.vok proofs/C13_sign.required_vos: proofs/C13_sign.v lib/Lib.vos lib/RLib.vos lib/Trig.vos gen/Compute.vos gen/Tables.vos gen/Unfold.vos proofs/C13_range.vos
 props/C12.vo props/C12.glob props/C12.v.beautified props/C12.required_vo: props/C12.v lib/Lib.vo lib/RLib.vo lib/BoolLaws.vo gen/Compute.vo gen/Tables.vo proofs/C12_eq.vo proofs/C12_ne.vo proofs/C12_close.vo
 props/C12.vio: props/C12.v lib/Lib.vio lib/RLib.vio lib/BoolLaws.vio gen/Compute.vio gen/Tables.vio proofs/C12_eq.vio proofs/C12_ne.vio proofs/C12_close.vio
 props/C12.vos props/C12.vok props/C12.required_vos: props/C12.v lib/Lib.vos lib/RLib.vos lib/BoolLaws.vos gen/Compute.vos gen/Tables.vos proofs/C12_eq.vos proofs/C12_ne.vos proofs/C12_close.vos
+props/C13.vo props/C13.glob props/C13.v.beautified props/C13.required_vo: props/C13.v lib/Lib.vo lib/RLib.vo lib/Trig.vo gen/Compute.vo gen/Tables.vo proofs/C13_range.vo proofs/C13_causal.vo proofs/C13_par.vo proofs/C13_sign.vo
+props/C13.vio: props/C13.v lib/Lib.vio lib/RLib.vio lib/Trig.vio gen/Compute.vio gen/Tables.vio proofs/C13_range.vio proofs/C13_causal.vio proofs/C13_par.vio proofs/C13_sign.vio
+props/C13.vos props/C13.vok props/C13.required_vos: props/C13.v lib/Lib.vos lib/RLib.vos lib/Trig.vos gen/Compute.vos gen/Tables.vos proofs/C13_range.vos proofs/C13_causal.vos proofs/C13_par.vos proofs/C13_sign.vos
